@@ -1709,6 +1709,23 @@ def _shallowcopy(interp, v):
 def _deepcopy(interp, v, memo=None):
     used("copy.deepcopy = fresh object graph equal in value (S7)")
     seen = {}
+    if memo is not None:
+        # [A] copy.deepcopy(x, memo): CPython keeps memo[id(y)] = copy of y for every object it copied; a memo dict that is passed to
+        # SEVERAL calls makes a later call return the earlier copy of an object it has seen before (aliasing between the results).
+        # The engine keeps one table per memo dict object (the dict itself stays empty: code that reads it leaves the subset).
+        if not isinstance(memo, dict):
+            from .interp import Undecided
+            raise Undecided("copy.deepcopy with a memo that is not a plain dict")
+        used("copy.deepcopy(x, memo): objects already copied under the same memo dict are not copied again")
+        tabs = interp.path.ghost.setdefault("deepcopy_memos", [])
+        for m_, seen_, keep_ in tabs:
+            if m_ is memo:
+                seen, keep = seen_, keep_
+                break
+        else:
+            keep = []
+            tabs.append((memo, seen, keep))
+        keep.append(v)  # id()-keyed table: keep the sources alive
 
     def cp(x):
         if id(x) in seen:
